@@ -12,7 +12,7 @@
    4. The size algebra of the two estimate passes of TransactionBuilder._add_change_and_fee. *)
 From Coq Require Import ZArith QArith Qround String List Bool.
 From Coq Require Import PrimFloat.
-From Coq Require SpecFloat FloatOps.
+From Coq Require SpecFloat FloatOps Uint63.
 From PyC Require Import Base Cbor.
 Import ListNotations.
 Open Scope Z_scope.
@@ -33,20 +33,36 @@ Inductive res (A : Type) := Ok (a : A) | Err (e : err).
 Arguments Ok {A} a.
 Arguments Err {A} e.
 
-(* correctly rounded int -> float (round half to even), as CPython's PyLong_AsDouble *)
-Definition f_of_Z (z : Z) : float :=
+(* correctly rounded int -> float (round half to even), as CPython's PyLong_AsDouble.
+   [f_of_Z_ref] is the specification-level definition; [f_of_Z] takes the primitive conversion for
+   |z| < 2^53 (exact there) so that large sweeps stay cheap.  FeeProofs compares both on sample values. *)
+Definition f_of_Z_ref (z : Z) : float :=
   FloatOps.SF2Prim (SpecFloat.binary_normalize FloatOps.prec FloatOps.emax z 0 false).
+
+Definition f_of_Z (z : Z) : float :=
+  if Z.abs z <? 9007199254740992 then
+    (if z <? 0 then PrimFloat.opp (of_uint63 (Uint63.of_Z (- z))) else of_uint63 (Uint63.of_Z z))
+  else f_of_Z_ref z.
 
 Definition int_to_float (z : Z) : res float :=
   let f := f_of_Z z in if is_infinity f then Err EOverflow else Ok f.
 
-(* exact value of a finite float: (-1)^s * m * 2^e *)
-Definition f_parts (f : float) : option (Z * Z) :=
+(* exact value of a finite float as (v, e) with value v * 2^e.  [f_parts_ref] goes through the standard
+   [FloatOps.Prim2SF]; [f_parts] reads mantissa and exponent with the primitives directly (same value,
+   possibly a different (v, e) split for subnormals). *)
+Definition f_parts_ref (f : float) : option (Z * Z) :=
   match FloatOps.Prim2SF f with
   | SpecFloat.S754_zero _ => Some (0, 0)
   | SpecFloat.S754_finite s m e => Some (if s then Z.neg m else Z.pos m, e)
   | _ => None
   end.
+
+Definition f_parts (f : float) : option (Z * Z) :=
+  if is_nan f || is_infinity f then None
+  else if is_zero f then Some (0, 0)
+  else let (r, e) := frshiftexp (abs f) in
+       let m := Uint63.to_Z (normfr_mantissa r) in
+       Some (if get_sign f then - m else m, Uint63.to_Z e - FloatOps.shift - 53).
 
 Definition f_to_Q (f : float) : option Q :=
   match f_parts f with
@@ -192,58 +208,51 @@ Record params := {
 }.
 Record context := { protocol_param : params }.
 
-(* ------------------------------------------------------------------ hand model of utils.py (pinned translator output) *)
-Fixpoint tier_loop (fuel : nat) (v_r v_m : pyval) (st : pyval * pyval * pyval) {struct fuel}
-  : res (pyval * pyval * pyval) :=
-  match fuel with
-  | O => Err EFuel
-  | S fuel' =>
-    let '(v_total, v_scripts_size, v_b) := st in
-    blk_cond (py_gt v_scripts_size v_r)
-      (blk_bind
-        (blk_let (py_add v_total (py_mul v_b v_r)) (fun v_total =>
-         blk_let (py_sub v_scripts_size v_r) (fun v_scripts_size =>
-         blk_let (py_mul v_b v_m) (fun v_b =>
-         Ok (v_total, v_scripts_size, v_b)))))
-        (fun st' => tier_loop fuel' v_r v_m st'))
-      (Ok st)
-  end.
-
+(* ------------------------------------------------------------------ hand model of utils.py
+   Pinned text of the translator's output for the reviewed source (names changed only); FeeGenProofs proves the
+   freshly generated coq/gen/FeeGen.v convertible to it on every run. *)
+Open Scope string_scope.
+(* def tiered_reference_script_fee — utils.py line 30 *)
+Fixpoint tier_loop (fuel : nat) (v_m v_r : pyval) (st : pyval * pyval * pyval) {struct fuel} : res (pyval * pyval * pyval) :=
+ match fuel with
+ | O => Err EFuel
+ | S fuel' =>
+  let '(v_total, v_scripts_size, v_b) := st in
+  blk_cond (py_gt v_scripts_size v_r)
+   (blk_bind (blk_let (py_add v_total (py_mul v_b v_r)) (fun v_total =>
+ blk_let (py_sub v_scripts_size v_r) (fun v_scripts_size =>
+ blk_let (py_mul v_b v_m) (fun v_b =>
+ Ok (v_total, v_scripts_size, v_b)))))
+    (fun st' => tier_loop fuel' v_m v_r st'))
+   (Ok st)
+ end.
 Definition tiered_model (fuel : nat) (v_context : context) (v_scripts_size : pyval) : pyval :=
-  py_cond (py_or (py_is_none (maximum_reference_scripts_size (protocol_param v_context)))
-                 (py_is_none (min_fee_reference_scripts (protocol_param v_context))))
-    (VInt 0)
-    (py_let (py_getitem (maximum_reference_scripts_size (protocol_param v_context)) "bytes") (fun v_max_size =>
-     py_cond (py_gt v_scripts_size v_max_size)
-       (VErr EValue)
-       (py_let (VFloat 0x0.0p+0) (fun v_total =>
-        py_block
-          (blk_cond v_scripts_size
-            (blk_let (py_getitem (min_fee_reference_scripts (protocol_param v_context)) "base") (fun v_b =>
-             blk_let (py_ceil (py_getitem (min_fee_reference_scripts (protocol_param v_context)) "range")) (fun v_r =>
-             blk_let (py_getitem (min_fee_reference_scripts (protocol_param v_context)) "multiplier") (fun v_m =>
-             blk_bind (tier_loop fuel v_r v_m (v_total, v_scripts_size, v_b)) (fun '(v_total, v_scripts_size, v_b) =>
-             blk_let (py_add v_total (py_mul v_b v_scripts_size)) (fun v_total =>
-             Ok (v_total, v_scripts_size)))))))
-            (Ok (v_total, v_scripts_size)))
-          (fun '(v_total, v_scripts_size) => py_ceil v_total))))).
+ py_cond (py_or (py_is_none (maximum_reference_scripts_size (protocol_param v_context))) (py_is_none (min_fee_reference_scripts (protocol_param v_context))))
+ ((VInt (0)))
+ (py_let (py_getitem (maximum_reference_scripts_size (protocol_param v_context)) "bytes") (fun v_max_size =>
+ py_cond (py_gt v_scripts_size v_max_size)
+ ((VErr EValue))
+ (py_let (VFloat 0x0.0p+0) (fun v_total =>
+ py_block (blk_bind (blk_cond v_scripts_size
+ (blk_let (py_getitem (min_fee_reference_scripts (protocol_param v_context)) "base") (fun v_b =>
+ blk_let (py_ceil (py_getitem (min_fee_reference_scripts (protocol_param v_context)) "range")) (fun v_r =>
+ blk_let (py_getitem (min_fee_reference_scripts (protocol_param v_context)) "multiplier") (fun v_m =>
+ blk_bind (tier_loop fuel v_m v_r (v_total, v_scripts_size, v_b)) (fun '(v_total, v_scripts_size, v_b) =>
+ blk_let (py_add v_total (py_mul v_b v_scripts_size)) (fun v_total =>
+ Ok (v_total, v_scripts_size)))))))
+ (Ok (v_total, v_scripts_size))) (fun '(v_total, v_scripts_size) =>
+ Ok (v_total, v_scripts_size)))
+ (fun '(v_total, v_scripts_size) => (py_ceil v_total)))))).
 
-Definition fee_model (fuel : nat) (v_context : context)
-    (v_length v_exec_steps v_max_mem_unit v_ref_script_size : pyval) : pyval :=
-  py_int
-    (py_add (py_add (py_add (py_add
-       (py_ceil (py_mul v_length (min_fee_coefficient (protocol_param v_context))))
-       (py_ceil (min_fee_constant (protocol_param v_context))))
-       (py_ceil (py_mul v_exec_steps (price_step (protocol_param v_context)))))
-       (py_ceil (py_mul v_max_mem_unit (price_mem (protocol_param v_context)))))
-       (py_let v_ref_script_size (fun a1 => tiered_model fuel v_context a1))).
+(* def fee — utils.py line 71 *)
+Definition fee_model (fuel : nat) (v_context : context) (v_length v_exec_steps v_max_mem_unit v_ref_script_size : pyval) : pyval :=
+ (py_int (py_add (py_add (py_add (py_add (py_ceil (py_mul v_length (min_fee_coefficient (protocol_param v_context)))) (py_ceil (min_fee_constant (protocol_param v_context)))) (py_ceil (py_mul v_exec_steps (price_step (protocol_param v_context))))) (py_ceil (py_mul v_max_mem_unit (price_mem (protocol_param v_context))))) (py_let v_ref_script_size (fun a1 => tiered_model fuel v_context a1)))).
 
+(* def max_tx_fee — utils.py line 100 *)
 Definition max_tx_fee_model (fuel : nat) (v_context : context) (v_ref_script_size : pyval) : pyval :=
-  py_let (max_tx_size (protocol_param v_context)) (fun a1 =>
-  py_let (max_tx_ex_steps (protocol_param v_context)) (fun a2 =>
-  py_let (max_tx_ex_mem (protocol_param v_context)) (fun a3 =>
-  py_let v_ref_script_size (fun a4 =>
-  fee_model fuel v_context a1 a2 a3 a4)))).
+ (py_let (max_tx_size (protocol_param v_context)) (fun a1 => py_let (max_tx_ex_steps (protocol_param v_context)) (fun a2 => py_let (max_tx_ex_mem (protocol_param v_context)) (fun a3 => py_let v_ref_script_size (fun a4 => fee_model fuel v_context a1 a2 a3 a4))))).
+
+Close Scope string_scope.
 
 (* ------------------------------------------------------------------ the ledger rule (SPECIFICATION), exact rationals *)
 Module Ledger.
@@ -257,9 +266,11 @@ Module Ledger.
     lmult : Q          (* price multiplier per tier *)
   }.
 
-  (* Cardano.Ledger.Conway.Tx.tierRefScriptFee: go acc price n
-       | n < sizeIncrement = floor (acc + n * price)
-       | otherwise = go (acc + sizeIncrement * price) (multiplier * price) (n - sizeIncrement) *)
+  (* Cardano.Ledger.Conway.Tx.tierRefScriptFee (Rational arithmetic, always normalised):
+       go acc price n | n < sizeIncrement = floor (acc + n * price)
+                      | otherwise = go (acc + sizeIncrement * price) (multiplier * price) (n - sizeIncrement)
+     [tier_go] is that recursion; [tier] is the same value read as "k = n div range full tiers, then the
+     remaining n - k*range bytes at the k-th price" (FeeProofs.tier_go_tier proves them equal). *)
   Fixpoint tier_go (fuel : nat) (rng : Z) (mult : Q) (acc price : Q) (n : Z) : Q :=
     match fuel with
     | O => acc
@@ -267,10 +278,17 @@ Module Ledger.
              else tier_go f rng mult (Qred (acc + inject_Z rng * price)%Q) (Qred (mult * price)%Q) (n - rng)
     end.
 
-  Definition tier_fuel (rng n : Z) : nat := S (Z.to_nat (n / rng)).
+  Fixpoint tier_prefix (k : nat) (rng : Z) (mult : Q) (acc price : Q) : Q * Q :=
+    match k with
+    | O => (acc, price)
+    | S k' => tier_prefix k' rng mult (Qred (acc + inject_Z rng * price)%Q) (Qred (mult * price)%Q)
+    end.
+
+  Definition tier_last (ap : Q * Q) (j : Z) : Q := Qred (fst ap + inject_Z j * snd ap)%Q.
 
   Definition tier (p : lparams) (n : Z) : Q :=
-    tier_go (tier_fuel (lrange p) n) (lrange p) (lmult p) 0%Q (lbase p) n.
+    let k := Z.to_nat (n / lrange p) in
+    tier_last (tier_prefix k (lrange p) (lmult p) 0%Q (lbase p)) (n - Z.of_nat k * lrange p).
 
   Definition min_fee (p : lparams) (size steps mem refbytes : Z) : Z :=
     la p * size + lb p + Qceiling (lpm p * inject_Z mem + lps p * inject_Z steps)%Q + Qfloor (tier p refbytes).
